@@ -20,7 +20,8 @@ RULE = ("(1) /proc/stat records printed by the spec's kernel printer (read throu
         "starts after A (and is handed A's ident) or before A exits; optional third thread and main-thread calls; B's first samples in other series / by "
         "blocking calls or in A's own series (where the ident-keyed code before d2712e2 inherited A's sample); (3) scripts of Process.cpu_percent calls on two "
         "Process objects of one pid with scripted monotonic clock, cpu_count() and all five counters of the process tuple (also inside and across oneshot() blocks, nested blocks, as_dict(attrs) and "
-        "process_iter(attrs=...), with /proc/<pid>/stat standing still or moving while a block is open, always ending with a plain call after the block): utime/stime and, "
+        "process_iter(attrs=...), with /proc/<pid>/stat standing still or moving while a block is open, always ending with a plain call after the block; and the same histories run on psutil.Process, on a subclass overriding name()/create_time()/"
+        "is_running()/__init__, on a TreeProcess whose cpu_times() adds the children and on a JsonProcess whose cpu_times() returns a dict): utime/stime and, "
         "independently, cutime/cstime/delayacct_blkio_ticks (mixed, moving alone, or standing still). Non-trivial = at least one counter "
         "or one call; distinct = distinct canonical case hash.")
 TRUSTED = ["correspondence harness props/C07.py + pv/ (every case starts from a real re-import of psutil -- importlib.reload of the platform "
@@ -45,6 +46,8 @@ TAIL_NAMES = ["intr", "ctxt", "btime", "processes", "procs_running", "procs_bloc
 CLKS = [100, 100, 100, 100, 250, 1000, 1, 1024]
 VALS = [0, 1, 99, 2 ** 31, 2 ** 32, 2 ** 53 + 1, 2 ** 63, 2 ** 64 - 1, 10 ** 25]
 KEY_SUBSEC = "cpu_times_percent-subsecond"
+KEY_SUB = "subclass-cpu_times-override-breaks-oneshot"
+SUB_OVERRIDES = ("Tree", "Json")       # subclasses that override the public cpu_times()
 
 
 # ------------------------------------------------------------------ generators
@@ -480,6 +483,54 @@ def gen_pblock(rng, const=True):
     return {"kind": "pblock", "cls": "pblock-%s%s" % ("const" if const else "moving", "" if inblock else "-noblock"), "clk": clk, "ncpu": ncpu, "ops": ops}
 
 
+def gen_subclass(rng, blocks=True):
+    """one history of cpu_percent()/cpu_times() calls (blocking and not, inside/outside oneshot(), as_dict) to be run on
+    psutil.Process and on three user subclasses: the cpu_percent() answers must be identical and nothing may raise"""
+    clk = rng.choice(CLKS)
+    ncpu = rng.choice([1, 2, 4])
+    t = Fraction(rng.randint(0, 2 ** 12), 8)
+    tk = [rng.randint(0, 10 ** 5), rng.randint(0, 10 ** 5), rng.randint(1, 10 ** 4), rng.randint(1, 10 ** 4), rng.randint(0, 10 ** 3)]
+    depth = 0
+    ops = []
+
+    def adv():
+        nonlocal t
+        t += Fraction(rng.choice([1, 8, 84, rng.randint(1, 4000)]), 8)
+        if depth == 0:
+            tk[0] += rng.choice([0, 1, 5, clk, rng.randint(0, 10 ** 4)])
+            tk[1] += rng.choice([0, 1, 7, rng.randint(0, 10 ** 3)])
+            for i in (2, 3, 4):
+                tk[i] += rng.choice([0, 3, rng.randint(1, 10 ** 4)])      # the children's time and iowait move a lot
+        return [[t.numerator, t.denominator]] + list(tk)
+
+    def percent(iv=None):
+        iv = iv or rng.choice(["none", "none", "zero", "pos", "neg"])
+        r1 = adv()
+        ops.append({"op": "percent", "obj": 0, "iv": iv, "r1": r1, "r2": adv() if iv == "pos" else list(r1), "zero": rng.choice([0, 0.0])})
+
+    percent("none")
+    for _ in range(rng.randint(3, 7)):
+        k = rng.random()
+        if blocks and k < 0.15 and depth < 2:
+            ops.append({"op": "enter", "obj": 0})
+            depth += 1
+        elif blocks and k < 0.28 and depth > 0:
+            ops.append({"op": "exit", "obj": 0})
+            depth -= 1
+        elif k < 0.45:
+            ops.append({"op": "times", "obj": 0, "r": adv()})
+        elif blocks and k < 0.58:
+            ops.append({"op": "as_dict", "obj": 0, "attrs": rng.choice([["cpu_times", "cpu_percent"], ["cpu_percent"]]), "r": adv()})
+        else:
+            percent()
+    while depth > 0:
+        ops.append({"op": "exit", "obj": 0})
+        depth -= 1
+    percent(rng.choice(["none", "zero"]))
+    return [{"kind": "subclass", "cls": "subclass-%s%s" % (kl, "" if blocks else "-noblock"), "clk": clk, "ncpu": ncpu, "klass": kl,
+             "ops": [dict(o) for o in ops]} for kl in ("Process", "Plain", "Tree", "Json")]
+
+
 def _exhaustive_shapes():
     out = []
     for nf in (7, 8, 9, 10):
@@ -504,22 +555,26 @@ def gen_cases(rng, tier):
     cases = []
     if tier != "search":
         cases += _exhaustive_shapes() if tier == "thorough" else _exhaustive_shapes()[::7]
-    cases += [gen_times(rng) for _ in range(60 * n)]
-    cases += [gen_times_raw(rng) for _ in range(50 * n)]
-    for flavour, k in (("p", 55), ("tp-safe", 55), ("mixed", 45), ("mixed-any", 20), ("tp-sub", 20)):
+    cases += [gen_times(rng) for _ in range(50 * n)]
+    cases += [gen_times_raw(rng) for _ in range(40 * n)]
+    for flavour, k in (("p", 45), ("tp-safe", 45), ("mixed", 40), ("mixed-any", 18), ("tp-sub", 18)):
         cases += [gen_script(rng, flavour, big) for _ in range(k * n)]
     cases += [gen_script_raw(rng) for _ in range(40 * n)]
     cases += [gen_nest(rng, "p") for _ in range(30 * n)]
     cases += [gen_nest(rng, "safe") for _ in range(20 * n)]
-    cases += [gen_life(rng, inherit=False) for _ in range(30 * n)]
+    cases += [gen_life(rng, inherit=False) for _ in range(22 * n)]
     cases += [gen_life(rng, inherit=True) for _ in range(10 * n)]
     cases += [gen_life(rng) for _ in range(10 * n)]
-    cases += [gen_proc(rng) for _ in range(40 * n)]
-    cases += [gen_proc(rng, decoy="only") for _ in range(15 * n)]
-    cases += [gen_proc(rng, decoy="still") for _ in range(5 * n)]
-    cases += [gen_proc(rng, True) for _ in range(15 * n)]
-    cases += [gen_pblock(rng, True) for _ in range(35 * n)]
-    cases += [gen_pblock(rng, False) for _ in range(20 * n)]
+    cases += [gen_proc(rng) for _ in range(30 * n)]
+    cases += [gen_proc(rng, decoy="only") for _ in range(12 * n)]
+    cases += [gen_proc(rng, decoy="still") for _ in range(4 * n)]
+    cases += [gen_proc(rng, True) for _ in range(10 * n)]
+    for _ in range(5 * n):
+        cases += gen_subclass(rng, True)
+    for _ in range(4 * n):
+        cases += gen_subclass(rng, False)
+    cases += [gen_pblock(rng, True) for _ in range(30 * n)]
+    cases += [gen_pblock(rng, False) for _ in range(15 * n)]
     return cases
 
 
@@ -582,10 +637,12 @@ def coq_term(case):
         imp_tid, imp_hex = _imp_of(case)
         imp = "(Some (%d, %s))" % (imp_tid, G.by(bytes.fromhex(imp_hex)))
         return "run_script_raw %s %s %s" % (clk, imp, G.lst(evs))
-    if k == "pblock":
+    if k in ("pblock", "subclass"):
+        ovr = k == "subclass" and case["klass"] in SUB_OVERRIDES
         rd = lambda r: "(mk_rd %s %d %d %d %d %d)" % (_q(r[0]), r[1], r[2], r[3], r[4], r[5])  # noqa: E731
         sr = lambda r: "(mk_sr %d %d %d %d %d)" % tuple(r[1:6])  # noqa: E731
         evs = []
+        cut = set()       # positions the faithful model of an overriding subclass never reaches
         for o in case["ops"]:
             ob = o["obj"]
             if o["op"] == "enter":
@@ -597,12 +654,17 @@ def coq_term(case):
             elif o["op"] == "percent":
                 evs.append("(mk_bp %d %s %s %s %s)" % (ob, IV[o["iv"]], G.z(case["ncpu"]), rd(o["r1"]), rd(o["r2"])))
             else:       # as_dict / process_iter(attrs): a block around the getters (file constant during the call)
-                evs.append("(%d, BEnter)" % ob)
+                full = ["(%d, BEnter)" % ob]
                 if "cpu_times" in o["attrs"]:
-                    evs.append("(%d, BTimes %s)" % (ob, sr(o["r"])))
+                    full.append("(%d, BTimes %s)" % (ob, sr(o["r"])))
                 if "cpu_percent" in o["attrs"]:
-                    evs.append("(mk_bp %d INone %s %s %s)" % (ob, G.z(case["ncpu"]), rd(o["r"]), rd(o["r"])))
-                evs.append("(%d, BExit)" % ob)
+                    full.append("(mk_bp %d INone %s %s %s)" % (ob, G.z(case["ncpu"]), rd(o["r"]), rd(o["r"])))
+                full.append("(%d, BExit)" % ob)
+                evs.extend(full)
+                # with an overriding subclass the block entry of as_dict() fails in the code as it is: nothing else is executed
+                cut.update(range(len(evs) - len(full) + 1, len(evs)) if ovr else [])
+        if k == "subclass":
+            return "run_sub %s %s (map snd %s) (map snd %s)" % (clk, G.bo(ovr), G.lst([x for i, x in enumerate(evs) if i not in cut]), G.lst(evs))
         return "run_pb %s [0; 1; 9] %s" % (clk, G.lst(evs))
     if k == "proc":
         rd = lambda r: "(mk_rd %s %d %d %d %d %d)" % (_q(r[0]), r[1], r[2], r[3], r[4], r[5])  # noqa: E731
@@ -639,6 +701,8 @@ def coq_struct(case, raw):
                 "legacy_inherit_class": raw[6] is False, "legacy_ident_keyed_answer": raw[8]}
     if k == "script_raw":
         return {"model": raw[0], "spec": None}
+    if k == "subclass":
+        return {"model": raw[0], "spec": raw[1]}
     if k == "pblock":
         if raw[0] != raw[1]:
             raise RuntimeError("model and spec differ on a block history (C07_block_values_exact): %r" % (case,))
@@ -671,6 +735,8 @@ def _within(a, b, tol):
 
 def finding_key(case, coq):
     k = case["kind"]
+    if k == "subclass" and case["klass"] in SUB_OVERRIDES and any(o["op"] in ("enter", "as_dict") for o in case["ops"]):
+        return KEY_SUB
     if k in ("script", "life", "nest") and coq.get("spec") is not None:
         for e, tots in zip(case["events"] if k == "script" else _flat_events(case) if k == "nest" else _life_calls(case), coq["totals"]):
             if e["fn"] == "tp" and any(0 < t < case["clk"] for t in tots):
@@ -692,7 +758,9 @@ def judge(case, coq, impl):
                     "inherits its sample) -- finding thread-ident-reuse-inherits-sample, fixed by d2712e2, is back")
     if v.kind == "violation":
         k = finding_key(case, coq)
-        if k == KEY_SUBSEC:
+        if k == KEY_SUB:
+            v.detail = "a Process subclass that overrides cpu_times() cannot enter oneshot()/as_dict(): AttributeError"
+        elif k == KEY_SUBSEC:
             v.detail = "cpu_times_percent over less than one elapsed CPU-second: shares do not add up to 100"
     return v
 
@@ -908,7 +976,7 @@ def impl_run(case, coq, env):
             return _run_script(case, coq, env, time)
         if k == "proc":
             return _run_proc(case, coq, env, time)
-        if k == "pblock":
+        if k in ("pblock", "subclass"):
             return _run_pblock(case, coq, env, time)
         raise ValueError(k)
     except _ImportFailed as e:
@@ -1206,12 +1274,71 @@ def _run_pblock(case, coq, env, time):
     def push(r, kind):
         idx = len(out)
         if isinstance(r, dict) and r.get("t") == "Val":
-            r = _snap_outcome(r, [coq["model"][idx], coq["spec"][idx]], rel if kind == "times" else tol_p)
+            cands = [lst[idx] for lst in (coq["model"], coq["spec"]) if lst is not None and idx < len(lst)]
+            r = _snap_outcome(r, cands, rel if kind == "times" else tol_p)
         out.append(r)
+
+    klass = case.get("klass", "Process")
+
+    class TreeProcess(psutil.Process):
+        """cpu_times() includes the waited-for children"""
+        def __init__(self, pid=None, label="tree", *extra):
+            super().__init__(pid)
+            self.label = label
+
+        def cpu_times(self):
+            b = super().cpu_times()
+            self.pv_base = b
+            return b._replace(user=b.user + b.children_user, system=b.system + b.children_system)
+
+    class JsonProcess(psutil.Process):
+        """cpu_times() returns a dict"""
+        def cpu_times(self):
+            b = super().cpu_times()
+            self.pv_base = b
+            return dict(b._asdict())
+
+    class PlainProcess(psutil.Process):
+        """overrides other public methods and the constructor signature, not cpu_times()"""
+        def __init__(self, pid, tag, *, flavour="x"):
+            super().__init__(pid)
+            self.tag = tag
+
+        def name(self):
+            return "overridden"
+
+        def create_time(self):
+            return 0.0
+
+        def is_running(self):
+            return True
+
+    def make():
+        if klass == "Tree":
+            return TreeProcess(pid, "t", 1, 2)
+        if klass == "Json":
+            return JsonProcess(pid)
+        if klass == "Plain":
+            return PlainProcess(pid, "tag", flavour="y")
+        return psutil.Process(pid)
+
+    def public_times(p):
+        r = p.cpu_times()
+        if klass == "Tree":
+            b = p.pv_base
+            if type(r).__name__ != "pcputimes" or r.user != b.user + b.children_user or r.system != b.system + b.children_system:
+                raise _BadShape("TreeProcess.cpu_times() -> %r from %r" % (r, b))
+            return b
+        if klass == "Json":
+            b = p.pv_base
+            if r != dict(b._asdict()):
+                raise _BadShape("JsonProcess.cpu_times() -> %r from %r" % (r, b))
+            return b
+        return r
 
     def getp(o):
         if o not in objs:
-            objs[o] = psutil.Process(pid)
+            objs[o] = make()
             stacks[o] = []
         return objs[o]
     try:
@@ -1219,12 +1346,16 @@ def _run_pblock(case, coq, env, time):
             op = e["op"]
             if op == "enter":
                 cm = getp(e["obj"]).oneshot()
-                cm.__enter__()
-                stacks[e["obj"]].append(cm)
+                r = outcome(cm.__enter__, lambda x: None)
+                if r.get("t") == "Val":
+                    stacks[e["obj"]].append(cm)
+                else:
+                    out.append(r)             # entering the block failed: an answer of the implementation
                 continue
             if op == "exit":
                 getp(e["obj"])
-                stacks[e["obj"]].pop().__exit__(None, None, None)
+                if stacks[e["obj"]]:
+                    stacks[e["obj"]].pop().__exit__(None, None, None)
                 continue
             r1 = e.get("r") or e["r1"]
             t1 = Fraction(*r1[0])
@@ -1233,7 +1364,7 @@ def _run_pblock(case, coq, env, time):
             _set_proc_stat(fp, pid, r1)
             pending["then"], pending["slept"] = None, 0
             if op == "times":
-                push(_shape_outcome(getp(e["obj"]).cpu_times, conv_times), "times")
+                push(_shape_outcome(lambda: public_times(getp(e["obj"])), conv_times), "times")
             elif op == "percent":
                 p = getp(e["obj"])
                 pending["then"] = e["r2"] if e["iv"] == "pos" else None
@@ -1254,14 +1385,18 @@ def _run_pblock(case, coq, env, time):
                             raise _BadShape("process_iter() yielded %d objects for the pid" % len(ps))
                         return ps[0].info
                     d = _shape_outcome(it, lambda x: x)
-                if d.get("t") != "Val" or not isinstance(d["a"][0], dict) or set(d["a"][0]) != set(e["attrs"]):
-                    bad = d if d.get("t") != "Val" else T("BadShape", "keys %r" % (sorted(d["a"][0]) if isinstance(d["a"][0], dict) else d["a"][0],))
+                if d.get("t") != "Val":
+                    out.append(d)             # the whole call failed: one answer
+                    continue
+                if not isinstance(d["a"][0], dict) or set(d["a"][0]) != set(e["attrs"]):
+                    bad = T("BadShape", "keys %r" % (sorted(d["a"][0]) if isinstance(d["a"][0], dict) else d["a"][0],))
                     for _ in e["attrs"]:
                         out.append(bad)
                     continue
                 info = d["a"][0]
                 if "cpu_times" in e["attrs"]:
-                    push(_shape_outcome(lambda: info["cpu_times"], conv_times), "times")
+                    # (for an overriding subclass the dict carries what ITS cpu_times() returned; compare the library's figures)
+                    push(_shape_outcome(lambda: getp(e["obj"]).pv_base if klass in SUB_OVERRIDES else info["cpu_times"], conv_times), "times")
                 if "cpu_percent" in e["attrs"]:
                     push(_shape_outcome(lambda: info["cpu_percent"], lambda x: ("Pct", _frac(x))), "pct")
     finally:
@@ -1276,8 +1411,14 @@ def _run_pblock(case, coq, env, time):
     return out
 
 
+def gen_tables(impl_dir, out_dir):
+    """coq/Gen/C07_Tables.v: what Process.cpu_percent / cpu_times / oneshot / ... reach through `self` (ast of the source under test)"""
+    from props import _c07_tables
+    return _c07_tables.gen_tables(impl_dir, out_dir)
+
+
 MANIFEST = {
-    "text": "Theorems (Coq, 36, all closed under the global context): (parse) for every /proc/stat the kernel can print (any number of CPUs, >= 7 "
+    "text": "Theorems (Coq, 41, all closed under the global context): (parse) for every /proc/stat the kernel can print (any number of CPUs, >= 7 "
             "decimal counters per line) the model of cpu_times()/cpu_times(percpu=True) returns every named counter / CLOCK_TICKS per CPU in kernel "
             "order; (arithmetic) cpu_percent between two samples = 100*busy/total over clipped deltas (busy = user+nice+system+irq+softirq+steal, "
             "guest not double counted, idle/iowait not busy), in [0,100], a counter that went backwards contributes zero; cpu_times_percent values "
@@ -1299,7 +1440,10 @@ MANIFEST = {
             "(nested too) the cached /proc/<pid>/stat record is never modified by a reader (C07_stat_cache_never_modified_by_reader), every "
             "cpu_times()/cpu_percent() value is the demanded one -- counters of the block's first read divided by CLOCK_TICKS once -- and the stored sample "
             "is the true one (C07_block_values_exact), and blocks are transparent when the file stands still while they are open "
-            "(C07_oneshot_block_transparent). The model is tied to the code by running the real psutil over fake /proc/stat "
+            "(C07_oneshot_block_transparent); object protocols: a table generated from the ast of the source under test shows that everything "
+            "Process.cpu_percent reaches through self is private or the platform layer (C07_cpu_percent_samples_are_private, re-checked every run), the "
+            "cpu_percent() answers do not depend on what a user subclass's public cpu_times() returns, a subclass not overriding cpu_times() is Process, and "
+            "oneshot()'s activation through the public names is recorded as a known defect (C07_oneshot_dispatches_through_public_names_refuted). The model is tied to the code by running the real psutil over fake /proc/stat "
             "files (including a real re-import of psutil over a redirected /proc/stat), a scripted clock and real threads on generated cases.",
     "note": "Trusted: Coq kernel + vm_compute; hand-written model coq/C07/Model.v (tied by the correspondence run only); /proc/stat format in "
             "coq/C07/Spec.v; harness (fake files, importlib.reload under the path shim, public hooks only: os.sysconf, time.monotonic, "
